@@ -109,6 +109,16 @@ CLAIMS = {
             'Fisher window extrema rescanned and covering the newest value; state never depends on the raw argument.',
             'Trusted: as C09 plus the reference recurrences transcribed from the property text. Not decided: non-linear tails, warm-up/initial-state behaviour, CyberCycle smoothing layout, PFE ratio.',
             'DESIGN.md §5 C11', 'E4/E6'),
+    'C06': ('other', 'static analysis: loop-nest enumeration with symbolic window values (index coverage, pair counts, weights) + term matching',
+            'NET: every pair of window values compared exactly once, pair count = denominator n(n−1)/2, +1/−1/0 for newer >/</= older (n = 2..9 quick, ..24 thorough); '
+            'CenterOfGravity: weight k for the k-th newest value, plain sum in the denominator, constant (n+1)/2, zero-denominator guard; CTI: the five moment sums over the whole '
+            'window with t the enumeration index, Pearson ratio of them, both variance guards > 0.',
+            'Trusted: vg loop records, lti index evaluation. Window values are symbolic; only index ranges are enumerated, for full windows of the stated sizes. Not decided: rounding.',
+            'DESIGN.md §5 C06', 'E8'),
+    'C07': ('other', 'static analysis: interval/sign analysis of last∘update on the value graph + reuse of the Drawdown/NET/Fisher/clip rules',
+            'Only bounds constructed by the code: Tanh, LaguerreRSI, WelfordOnline/Rolling, GTE/LTE, Fisher (ln 199), Drawdown (monotone from 0), NET.',
+            'Declined in so many words: Rsi, MyRSI, HLNormalizer, CTI, PFE, BinaryEntropy, Vsct, Min<=Sma/Alma<=Max, CoG, Drawdown<1, and every "few ulps" clause.',
+            'DESIGN.md §5 C07', 'E3-float'),
 }
 
 NOT_APPLICABLE = {
